@@ -8,6 +8,7 @@ package gws
 import (
 	"bytes"
 	"io"
+	"strconv"
 
 	"github.com/lxzan/gws/internal"
 )
@@ -143,9 +144,22 @@ type verifChunkReader struct {
 	i           int
 	eofWithLast bool
 	failAtEnd   bool
+	trace       []string // "<n>:<m|e|f>" per Read call as the limited reader saw it
 }
 
-func (r *verifChunkReader) Read(p []byte) (int, error) {
+func (r *verifChunkReader) Read(p []byte) (n int, err error) {
+	n, err = r.read(p)
+	st := "m"
+	if err == io.EOF {
+		st = "e"
+	} else if err != nil {
+		st = "f"
+	}
+	r.trace = append(r.trace, strconv.Itoa(n)+":"+st)
+	return
+}
+
+func (r *verifChunkReader) read(p []byte) (int, error) {
 	if r.i >= len(r.chunks) {
 		if r.failAtEnd {
 			return 0, io.ErrUnexpectedEOF
@@ -166,8 +180,9 @@ func (r *verifChunkReader) Read(p []byte) (int, error) {
 }
 
 // VerifLimitedCopy runs the copy loop of deflater.Decompress (io.CopyBuffer through limitReader with a
-// 32 KiB buffer) on a scripted source and reports how many bytes reached the destination and the error class.
-func VerifLimitedCopy(limit int, chunks []int, eofWithLast bool, failAtEnd bool) (written int, errClass string) {
+// 32 KiB buffer; bytes.Buffer.ReadFrom decides the size of each read) on a scripted source and reports how many
+// bytes reached the destination, the error class, and the reads the source served.
+func VerifLimitedCopy(limit int, chunks []int, eofWithLast bool, failAtEnd bool) (written int, errClass string, reads []string) {
 	src := &verifChunkReader{chunks: append([]int(nil), chunks...), eofWithLast: eofWithLast, failAtEnd: failAtEnd}
 	var dst bytes.Buffer
 	_, err := io.CopyBuffer(&dst, limitReader(src, limit), make([]byte, 32*1024))
@@ -179,5 +194,5 @@ func VerifLimitedCopy(limit int, chunks []int, eofWithLast bool, failAtEnd bool)
 	default:
 		errClass = "fail"
 	}
-	return dst.Len(), errClass
+	return dst.Len(), errClass, src.trace
 }
